@@ -147,7 +147,8 @@ Lemma read_message_into_agrees :
 Proof.
   pose proof decode_agrees as Hd. pose proof grow_zeroed_agrees as Hg.
   gen_start. all: intros can_alloc buf0 src; callee Hd; callee Hg; unfold read_message_into, read_exact_fill; cbv zeta.
-  all: rewrite vec_resize_nil; change (N.to_nat HEADER_SIZE) with 48%nat.
+  (* the cleared buffer is filled by `resize(HEADER_SIZE, 0)` or by appending a zeroed array: both are 48 zeros *)
+  all: rewrite ?vec_resize_nil; cbn [app]; change (N.to_nat HEADER_SIZE) with 48%nat.
   all: rewrite slice_all_chk by (now rewrite lenN_repeat); cbn [bind]; rewrite lenN_repeat; change (N.of_nat 48) with HEADER_SIZE.
   all: destruct (read_exact src HEADER_SIZE) as [[hb s1]| | |] eqn:H0; cbn [bind]; try reflexivity.
   all: apply read_exact_ok in H0 as (Lh & _).
